@@ -1,5 +1,6 @@
 //! Key pool: keys generated at run time by the code under test (never cached across runs).
 
+use std::sync::atomic::{AtomicBool, Ordering};
 use std::sync::Mutex;
 
 use crate::fv::Fv;
@@ -17,7 +18,42 @@ pub fn keys<V: Fv>(seed: u64, label: &str, count: usize) -> (Vec<Key<V>>, Vec<([
     keys_from::<V>(&seeds)
 }
 
+static KEYGEN_STUCK: AtomicBool = AtomicBool::new(false);
+static CANARY_DONE: AtomicBool = AtomicBool::new(false);
+
+/// Key generation draws from its own seeded generator, so a key search that never accepts
+/// cannot be bounded by logical steps from outside. One canary key generation per process
+/// runs under a generous wall-clock limit (normal: 0.2-1.5 s; limit 180 s); if it does not
+/// return, every leg that needs keys reports INCONCLUSIVE at once instead of hanging until the
+/// driver's watchdog. (Never a violation: wall time is not an oracle.)
+pub fn keygen_responds<V: Fv>() -> bool {
+    if KEYGEN_STUCK.load(Ordering::SeqCst) {
+        return false;
+    }
+    if CANARY_DONE.load(Ordering::SeqCst) {
+        return true;
+    }
+    let (tx, rx) = std::sync::mpsc::channel();
+    std::thread::spawn(move || {
+        let r = monitored(|| V::keygen([0x42u8; 32])).is_ok();
+        let _ = tx.send(r);
+    });
+    match rx.recv_timeout(std::time::Duration::from_secs(180)) {
+        Ok(_) => {
+            CANARY_DONE.store(true, Ordering::SeqCst);
+            true
+        }
+        Err(_) => {
+            KEYGEN_STUCK.store(true, Ordering::SeqCst);
+            false
+        }
+    }
+}
+
 pub fn keys_from<V: Fv>(seeds: &[[u8; 32]]) -> (Vec<Key<V>>, Vec<([u8; 32], PanicInfo)>) {
+    if !keygen_responds::<V>() {
+        return (vec![], vec![([0u8; 32], PanicInfo { message: "key generation did not return within 180 s (canary)".into(), location: "harness".into(), no_progress: true })]);
+    }
     let out: Mutex<Vec<(usize, Key<V>)>> = Mutex::new(vec![]);
     let bad: Mutex<Vec<([u8; 32], PanicInfo)>> = Mutex::new(vec![]);
     par_for(seeds.len(), ncpu(), |i, _| {
